@@ -8,7 +8,7 @@ import (
 	"go/token"
 	"go/types"
 
-	"golang.org/x/tools/go/ssa"
+	"trzszlint/xssa"
 )
 
 // makeSites returns the allocation sites (MakeChan, MakeSlice, Alloc, ...) a value may originate from.
